@@ -118,6 +118,38 @@ def prior : String → Option Dir
   | "index-emptied" => some ⟨.current, .unopenable⟩
   | _ => none
 
+/-- Damage done to the data directory between two starts (the states the property
+lists): metadata removed, truncated / garbage, written by another version, written
+for other data; index directory removed, or present but not openable. None of them
+makes `meta.json` say "current". -/
+inductive Damage
+  | metaRemoved | metaGarbage | metaOtherVersion (hashOk : Bool) | metaOtherData
+  | indexRemoved | indexUnopenable
+  deriving DecidableEq, Repr
+
+def damage (d : Dir) : Damage → Dir
+  | .metaRemoved => { d with md := .absent }
+  | .metaGarbage => { d with md := .garbage }
+  | .metaOtherVersion h => { d with md := .parsed false h }
+  | .metaOtherData => { d with md := .parsed true false }
+  | .indexRemoved => { d with index := .absent }
+  | .indexUnopenable => { d with index := .unopenable }
+
+/-- One event in the life of the data directory. -/
+inductive Event
+  | start (cp : Crash)       -- a start of the tool, killed at `cp` (or complete)
+  | damaged (x : Damage)
+  deriving DecidableEq, Repr
+
+def event (d : Dir) : Event → Dir
+  | .start cp => (run d cp).dir
+  | .damaged x => damage d x
+
+def history (d : Dir) (es : List Event) : Dir := es.foldl event d
+
+/-- The crash points the hooks define. -/
+def crashPoints : List Nat := [0, 1, 2, 3, 4, 10, 11, 12, 13, 14, 15, 16, 17]
+
 def MetaSt.show : MetaSt → String
   | .absent => "absent"
   | .garbage => "garbage"
